@@ -9,7 +9,7 @@ use gc_arena::{
 use gcv::{json::J, talloc};
 
 use crate::GridOut;
-use crate::c17::{A, A1, A8, A64, Case, P1, P4, P64, Payload, Root, dlog_count, dlog_len, in_window, new_arena, run_cases};
+use crate::c17::{A, A1, A2, A4, A8, A16, A64, Case, P1, P4, P64, Payload, Root, dlog_count, dlog_len, in_window, new_arena, run_cases};
 
 struct Chain<'gc> {
     next: Lock<Option<Gc<'gc, Chain<'gc>>>>,
@@ -321,6 +321,78 @@ fn swh_copy_case<H: Payload>(n: usize, delta: i64, phase: u8) -> Result<(), Stri
     })
 }
 
+/// Copy element types of every alignment for copy_slice behind a header (padding between header and slice)
+trait CopyElem: Copy + PartialEq + std::fmt::Debug + for<'gc> Collect<'gc> + 'static {
+    fn mk(i: usize) -> Self;
+}
+macro_rules! copy_int { ($($t:ty),*) => {$( impl CopyElem for $t { fn mk(i: usize) -> Self { (i as $t).wrapping_mul(37).wrapping_add(0xA1) } } )*}; }
+copy_int!(u8, u16, u32, u64);
+#[derive(Clone, Copy, PartialEq, Debug)]
+#[repr(align(16))]
+struct C16(u8);
+#[derive(Clone, Copy, PartialEq, Debug)]
+#[repr(align(64))]
+struct C64(u16);
+unsafe impl<'gc> Collect<'gc> for C16 {
+    const NEEDS_TRACE: bool = false;
+}
+unsafe impl<'gc> Collect<'gc> for C64 {
+    const NEEDS_TRACE: bool = false;
+}
+impl CopyElem for C16 {
+    fn mk(i: usize) -> Self {
+        C16(i as u8 ^ 0x5A)
+    }
+}
+impl CopyElem for C64 {
+    fn mk(i: usize) -> Self {
+        C64(i as u16 ^ 0x5A5A)
+    }
+}
+
+/// copy_slice into header+slice for every header size / element alignment combination: the elements land
+/// where the slice is read from (behind the padding), aligned, equal to the source; the header is intact.
+fn swh_copy_layout_case<H: Payload, E: CopyElem>(n: usize, phase: u8) -> Result<(), String> {
+    in_window(|| {
+        let arena = arena_in_phase(phase)?;
+        let b = before(&arena);
+        let src: Vec<E> = (0..n).map(E::mk).collect();
+        let r = catch_unwind(AssertUnwindSafe(|| {
+            arena.mutate(|mc, _| -> Result<(), String> {
+                let g = talloc::subject(|| GcSliceWithHeaderBuilder::<H, E>::new(n).write_header(H::new())).copy_slice(mc, &src);
+                let hp = &g.header as *const H as usize;
+                let sp = g.slice.as_ptr() as usize;
+                if sp % std::mem::align_of::<E>() != 0 {
+                    return Err(format!("slice at {sp:#x} is not aligned to {}", std::mem::align_of::<E>()));
+                }
+                if hp % std::mem::align_of::<H>() != 0 {
+                    return Err(format!("header at {hp:#x} is not aligned to {}", std::mem::align_of::<H>()));
+                }
+                if sp < hp + std::mem::size_of::<H>() {
+                    return Err("slice overlaps the header".into());
+                }
+                if g.slice.len() != n || g.slice != src[..] {
+                    return Err(format!("slice reads {:?}, copied from {:?}", &g.slice, src));
+                }
+                // the header's bytes (all zero from H::new()) were not written over
+                let hb = unsafe { std::slice::from_raw_parts(hp as *const u8, std::mem::size_of::<H>()) };
+                if hb.iter().any(|x| *x != 0) {
+                    return Err("copy_slice wrote into the header".into());
+                }
+                Ok(())
+            })
+        }));
+        match r {
+            Ok(r) => r?,
+            Err(_) => return Err("copy_slice with a source of the right length panicked".into()),
+        }
+        if arena.metrics().total_gc_count() != b.count + 1 {
+            return Err("completed copy builder did not register exactly one allocation".into());
+        }
+        epilogue(arena, &[((H::L, H::A), 1)])
+    })
+}
+
 /// copy_slice with a zero-sized Copy element type: the length check must not be by byte size
 fn zst_copy_case(n: usize, delta: i64, phase: u8) -> Result<(), String> {
     in_window(|| {
@@ -437,6 +509,20 @@ pub fn cases(thorough: bool) -> Vec<Case> {
                 v.push((format!("swhcopy/A64<64>/n{n}/delta{delta}/phase{phase}"), Box::new(move || swh_copy_case::<A64<64>>(n, delta, phase))));
             }
         }
+        macro_rules! swhl {
+            ($h:ty; $($e:ty),*) => {$(
+                for n in [0usize, 1, 3] {
+                    v.push((format!("swhcopylayout/{}/{}/n{}/phase{}", stringify!($h), stringify!($e), n, phase), Box::new(move || swh_copy_layout_case::<$h, $e>(n, phase))));
+                }
+            )*};
+        }
+        swhl!(A1<1>; u8, u16, u32, u64, C16, C64);
+        swhl!(A1<3>; u8, u16, u32, u64, C16, C64);
+        swhl!(A2<2>; u8, u32, u64, C16);
+        swhl!(A4<4>; u16, u64, C16, C64);
+        swhl!(A8<8>; u8, C16, C64);
+        swhl!(A1<0>; u8, u64, C64);
+        swhl!(A16<16>; u8, u32, C64);
         macro_rules! sl {
             ($e:ty) => {
                 for n in 0..=nmax { for stage in 0..=(n + 1) { for st in [false, true] {
@@ -472,7 +558,7 @@ pub fn run(thorough: bool, only: Option<&str>) -> GridOut {
     GridOut {
         evaluations: n,
         nontrivial,
-        rule: "full grid: builder kind (GcBuilder, GcBuilder<Static>.unwrap_static, GcSliceBuilder (+Static), GcSliceWithHeaderBuilder, GcStrBuilder, copy_slice, copy_str) x abandonment point (fresh, after header, constructor panic at every index k <= n, completed) x element kind (destructor token, zero-sized, over-aligned 64, odd size) x n <= 4 x arena phase (Sleeping, Marking, Marked, Sweeping) x copy source length n-1 / n / n+1. Non-trivial = at least one part initialised".into(),
+        rule: "full grid: builder kind (GcBuilder, GcBuilder<Static>.unwrap_static, GcSliceBuilder (+Static), GcSliceWithHeaderBuilder, GcStrBuilder, copy_slice, copy_str) x abandonment point (fresh, after header, constructor panic at every index k <= n, completed) x element kind (destructor token, zero-sized, over-aligned 64, odd size) x n <= 4 x arena phase (Sleeping, Marking, Marked, Sweeping) x copy source length n-1 / n / n+1; copy_slice behind a header for 7 header layouts x Copy element alignments 1..64 (padding between header and slice): elements land aligned where the slice reads them, header bytes untouched. Non-trivial = at least one part initialised".into(),
         samples: names.iter().step_by((names.len() / 6).max(1)).take(6).map(|s| J::Str(s.clone())).collect(),
         violations: viol.iter().map(|(c, e)| J::obj().with("case", c.as_str()).with("message", e.as_str())).collect(),
         extra: J::obj().with("exhaustive", only.is_none()),
